@@ -290,6 +290,7 @@ class Check(PropertyCheck):
         prev_pairs = []          # table after the previous step
         ever = {}                # client id -> server id it was paired with the first time a pair was observed
         seen_c = set()           # client ids that have been registered at some point
+        closed_sides = set()     # sides whose QuicConnectionClosed has been delivered (input-derived)
         for st in obs["steps"]:
             parts = st["in"].split()
             pairs = st["pairs"]
@@ -316,7 +317,9 @@ class Check(PropertyCheck):
                 seen_c.add(c)
                 if s is not None: ever.setdefault(c, s)
             # the id a peer used itself is the id the layer must register (input-derived)
-            if parts[0] in ("sd", "sr") and "X" not in st["out"]:
+            if parts[0] == "cc": closed_sides.add(parts[1])
+            layer_done = closed_sides == {"0", "1"}      # both QUIC connections are gone: the layer ignores everything
+            if parts[0] in ("sd", "sr") and "X" not in st["out"] and not layer_done:
                 fc, sid = int(parts[1]), int(parts[2])
                 if fc and sid not in now: fails.append(f"{st['in']}: no layer registered under client id {sid}")
                 if not fc and sid not in now.values(): fails.append(f"{st['in']}: no layer registered under server id {sid}")
@@ -374,11 +377,15 @@ class Check(PropertyCheck):
             "stream forgotten": base + [step("sd 0 0 - 1", [], [])],
             "stream re-paired": base + [step("sd 0 0 62 0", [], [(0, 4)])],
             "peer id not registered": base + [step("sd 1 4 62 0", ["H:8:start"], [(0, 0), (8, None)])],
+            "event ignored after only ONE connection closed": base + [step("cc 1 0", ["Q:s:0"], [(0, 0)]),
+                                                                      step("sd 0 3 62 0", [], [(0, 0)])],
             "command on a foreign stream": base + [step("sd 1 4 62 0", ["H:4:start"], [(0, 0), (4, None)]),
                                                     step("hook 4 none 1 4", ["D:s:0:62:0"], [(0, 0), (4, 4)])],
             "hook owner changed": base + [step("hook 0 none 0 4", [], [(0, 0)])],
         }
         must_pass = {
+            "ignored after both connections closed": base + [step("cc 1 0", ["Q:s:0"], [(0, 0)]), step("cc 0 0", [], [(0, 0)]),
+                                                             step("sd 1 4 62 0", [], [(0, 0)])],
             "guard assertion": base + [step("sd 1 5 62 0", ["X"], [(0, 0)])],
             "unopened server side on server close": base[:2] + [step("cc 0 0", ["Q:c:0", "X"], [(0, None)])],
         }
